@@ -62,7 +62,22 @@ def inputs(chk):
     for kind in range(6):
         jobs.append(("nest%d" % kind, {"main.capy": corpus.nested(200, kind) + "\nmain :: () {}\n"}))
     jobs.append(("64k", {"main.capy": ("x :: 1;\n" * 9000)[:65536] + "\nmain :: () {}\n"}))
+    jobs += regress_inputs()
     return jobs
+
+
+def regress_inputs():
+    """witnesses of the recorded findings (and of repaired defects): always part of the input set"""
+    import os
+    d = os.path.join(os.path.dirname(os.path.abspath(__file__)), "..", "c06_inputs")
+    out = []
+    for f in sorted(os.listdir(d)):
+        p = os.path.join(d, f)
+        if f.endswith(".json"):
+            out.append(("regress:" + f, json.load(open(p))["files"]))
+        elif f.endswith(".capy"):
+            out.append(("regress:" + f, {"main.capy": open(p).read()}))
+    return out
 
 
 def run(chk):
